@@ -349,7 +349,16 @@ def tabulation_output(P, clsname, elem, module="atsim.potentials.pair_tabulation
     inst = I.instantiate(cls, ctor or [param("potentials"), nsym("cutoff"), nsym("nr")], {}, None)
     fp = BufV("fp", is_file=True)
     run_method(I, inst, "write", [fp])
+    # the same object asked to write again, into a fresh file: what a tabulation emits must not depend on what it emitted before
+    fp2 = BufV("fp", is_file=True)
+    run_method(I, inst, "write", [fp2])
+    I.second_write_tree = out_tree(fp2)
     return I, out_tree(fp)
+
+
+def second_write(chk, rule, entry, I, expect, opts=None):
+    """obligations of `rule` for the second write() of the object tabulation_output made: the same file again"""
+    compare_trees(chk, rule, "%s (second call on the same object, fresh file)" % entry, I, I.second_write_tree, expect, opts)
 
 
 def spec_output(P, name, args, assumptions=None):
@@ -522,6 +531,7 @@ def eam_class_vs_spec(chk, rule, P, clsname, specname, opts=None, ctor=None, ele
     J.run(P.func("spec.writers", specname), list(ctor) + [fp])
     expect = out_tree(fp)
     compare_trees(chk, rule, "%s.write" % clsname, I, found, expect, opts)
+    second_write(chk, rule, "%s.write" % clsname, I, expect, opts)
     return I, found, expect
 
 
